@@ -688,10 +688,18 @@ type receiver struct {
 }
 
 func openReceiver(dir string, nf int, mode string) *receiver {
+	return openReceiverBusy(dir, nf, mode, nil)
+}
+
+func openReceiverBusy(dir string, nf int, mode string, ctl *busyCtl) *receiver {
 	t := measure.V17Open(dir, nf)
 	h := t.Handler()
 	s := sub.V17NewServer(mode)
-	s.Register(data.TopicMeasurePartSync, h.Callback())
+	var cb queue.ChunkedSyncHandler = h.Callback()
+	if ctl != nil {
+		cb = &busyHandler{ChunkedSyncHandler: cb, ctl: ctl}
+	}
+	s.Register(data.TopicMeasurePartSync, cb)
 	return &receiver{tab: t, h: h, srv: s}
 }
 
@@ -1002,10 +1010,39 @@ func runOpen(c caseT, base []*clusterv1.SyncPartRequest, scOverride *script) res
 // closed loop
 
 type loopFault struct {
-	Kind       string `json:"k"` // none | corrupt | recv-err | recv-eof | send-err | crash
+	Kind       string `json:"k"` // none | corrupt | recv-err | recv-eof | send-err | crash | busy
 	Pos        string `json:"p,omitempty"`
-	K          int    `json:"i"` // message / chunk index
+	K          int    `json:"i"`               // message / chunk index
+	Times      int    `json:"times,omitempty"` // busy: how many deliveries of chunk K are answered "server busy" (0 with Persistent = all)
 	Persistent bool   `json:"persistent,omitempty"`
+}
+
+// busyCtl couples the stream interceptor (which sees chunk indexes) with the part handler wrapper (which is where the
+// real receiver learns about memory pressure: HandleFileChunk returning queue.ErrServerBusy).
+type busyCtl struct {
+	mu    sync.Mutex
+	armed bool
+	left  int
+	hits  int
+}
+
+// busyHandler wraps the real measure chunked-sync handler: when armed, the next HandleFileChunk reports memory
+// pressure instead of writing (exactly what the real handler does while protector.State() is High).
+type busyHandler struct {
+	queue.ChunkedSyncHandler
+	ctl *busyCtl
+}
+
+func (b *busyHandler) HandleFileChunk(ctx *queue.ChunkedSyncPartContext, chunk []byte) error {
+	b.ctl.mu.Lock()
+	if b.ctl.armed {
+		b.ctl.armed = false
+		b.ctl.hits++
+		b.ctl.mu.Unlock()
+		return queue.ErrServerBusy
+	}
+	b.ctl.mu.Unlock()
+	return b.ChunkedSyncHandler.HandleFileChunk(ctx, chunk)
 }
 
 type dispatcher struct {
@@ -1035,6 +1072,7 @@ type loopNet struct {
 	onCrash  func()
 	rec      []*clusterv1.SyncPartRequest
 	f        loopFault
+	busy     *busyCtl
 	wg       sync.WaitGroup
 	mu       sync.Mutex
 	streams  int
@@ -1086,6 +1124,14 @@ func (fs *faultStream) RecvMsg(m any) error {
 	if f.Kind == "corrupt" && req.GetCompletion() == nil && int(req.ChunkIndex) == f.K && (f.Persistent || !n.fired) {
 		n.fired = true
 		req.ChunkData = flipBit(req.ChunkData, f.Pos)
+	}
+	if f.Kind == "busy" && req.GetCompletion() == nil && int(req.ChunkIndex) == f.K && n.busy != nil {
+		n.busy.mu.Lock()
+		if f.Persistent || n.busy.left > 0 {
+			n.busy.left--
+			n.busy.armed = true
+		}
+		n.busy.mu.Unlock()
 	}
 	fs.delivered++
 	return nil
@@ -1195,9 +1241,14 @@ func runLoop(c caseT, f loopFault, nChunks int) loopOut {
 	copyDir(tmplDir("rcv", c.Cfg.Lay), rdir)
 	snd := measure.V17Open(sdir, c.Cfg.Lay.NF)
 	defer snd.Close()
-	rc := openReceiver(rdir, c.Cfg.Lay.NF, c.Cfg.Mode)
+	var ctl *busyCtl
+	if f.Kind == "busy" {
+		ctl = &busyCtl{left: f.Times}
+	}
+	rc := openReceiverBusy(rdir, c.Cfg.Lay.NF, c.Cfg.Mode, ctl)
 	before := capture(rc.tab, true)
 	n := newLoopNet(f)
+	n.busy = ctl
 	n.disp.cur.Store(rc)
 	var old []*receiver
 	var reopenPanic any
@@ -1206,7 +1257,7 @@ func runLoop(c caseT, f loopFault, nChunks int) loopOut {
 		copyDir(rdir, cd)
 		func() {
 			defer func() { reopenPanic = recover() }()
-			nr := openReceiver(cd, c.Cfg.Lay.NF, c.Cfg.Mode)
+			nr := openReceiverBusy(cd, c.Cfg.Lay.NF, c.Cfg.Mode, ctl)
 			old = append(old, n.disp.cur.Load())
 			n.disp.cur.Store(nr)
 		}()
@@ -1228,7 +1279,12 @@ func runLoop(c caseT, f loopFault, nChunks int) loopOut {
 		o.tab.Close()
 	}
 	kind := f.Kind
-	if f.Persistent {
+	if f.Kind == "busy" {
+		kind = map[int]string{1: "busy-once", 2: "busy-twice"}[f.Times]
+		if f.Persistent {
+			kind = "busy-always"
+		}
+	} else if f.Persistent {
 		kind += "-persistent"
 	}
 	for _, e := range attemptErrs {
@@ -1603,6 +1659,19 @@ func plan(thorough bool) *planT {
 					add(loopFault{Kind: "recv-eof", K: k})
 					add(loopFault{Kind: "crash", K: k})
 					add(loopFault{Kind: "send-err", K: k})
+				}
+				// receiver memory pressure: the part handler answers queue.ErrServerBusy for chunk k on its first delivery,
+				// on its first two deliveries, or (first / middle / last chunk) always
+				for k := 0; k < n; k++ {
+					add(loopFault{Kind: "busy", K: k, Times: 1})
+					add(loopFault{Kind: "busy", K: k, Times: 2})
+				}
+				done := map[int]bool{}
+				for _, i := range []int{0, n / 2, n - 1} { // plan order must be the same in every worker: no map iteration
+					if !done[i] {
+						done[i] = true
+						add(loopFault{Kind: "busy", K: i, Persistent: true})
+					}
 				}
 			}
 		}
